@@ -281,6 +281,17 @@ EXTRA11 = {
     "C20": ("unquote walks from the head of the start element's parent", "Also decides where dereferencing starts its walk."),
 }
 
+EXTRA12 = {
+    "C09": ("version-pairing mechanism (no *_v1 function calls v2 code or vice versa; alt.rs helpers have equal skeletons)", "Also decides that the document-free v2 helpers answer v2 bytes."),
+    "C12": ("content mechanism: R-TABLE a copy of an ItemContent keeps its kind", "Also decides the kind of the content redo re-creates."),
+    "C14": ("R-SIB serde width of ClientID (writer and reader use the same scalar impl)", "Also decides that the JSON form of an id reads the width it writes."),
+    "C15": ("R-GUARD Hook::get answers Some only for a root type or a live item", "Also decides what a logical reference to a deleted collection resolves to."),
+    "C16": ("R-GUARD interning cache written only after a failed lookup", "Also decides that a cached attribute handle is never displaced."),
+    "C17": ("R-PROV C length readers reach the length method of their type", "Also decides which length the C readers answer."),
+    "C19": ("R-ORDER the hand-back field of an undo observer is read after the callback", "Also decides that metadata assigned in a C undo observer is kept."),
+    "C20": ("R-PROV C quote wrappers hand the four boundary parameters on; R-GUARD ExplicitRange bounds", "Also decides the boundaries of quotations created through the C API."),
+}
+
 PENDING = {
 }
 
@@ -289,7 +300,7 @@ def main():
     checks = []
     for pid in sorted(CHECKS):
         tech, text, ref = CHECKS[pid]
-        for ex in (EXTRA, EXTRA2, EXTRA3, EXTRA4, EXTRA5, EXTRA6, EXTRA7, EXTRA8, EXTRA9, EXTRA10, EXTRA11):
+        for ex in (EXTRA, EXTRA2, EXTRA3, EXTRA4, EXTRA5, EXTRA6, EXTRA7, EXTRA8, EXTRA9, EXTRA10, EXTRA11, EXTRA12):
             if pid in ex:
                 tech = tech + "; " + ex[pid][0]
                 text = text + " " + ex[pid][1]
